@@ -20,7 +20,8 @@ fixtures is needed.  `read_simulation(sim, spec)` returns the observable content
 The second half of the module is the blank-free prefix notation in which trees (documents, specs)
 travel to the Lean driver `ofdrv_doc` (see lean/OFCore/OFCore/Drv/Doc.lean):
 
-    n | t | f | i<int>; | r<num>/<den>; | s<hex of ASCII>; | [ item* ] | { (key item)* }     key = s<hex>; | i<int>;
+    n | t | f | i<int>; | r<num>/<den>; | s<hex of ASCII>; | d<ordinal of a datetime.date>; | [ item* ] | { (key item)* }
+    key = s<hex>; | i<int>;
 """
 from __future__ import annotations
 
@@ -250,6 +251,8 @@ def enc_tree(x) -> str:
         return f"r{x.numerator}/{x.denominator};"
     if isinstance(x, str):
         return f"s{hexs(x)};"
+    if isinstance(x, dt.date) and not isinstance(x, dt.datetime):
+        return f"d{x.toordinal()};"
     if isinstance(x, (list, tuple)):
         return "[" + "".join(enc_tree(y) for y in x) + "]"
     if isinstance(x, dict):
@@ -285,6 +288,8 @@ def dec_tree(s: str):
             return float(Fraction(int(p), int(q)))
         if c == "s":
             return unhexs(until_semicolon())
+        if c == "d":
+            return dt.date.fromordinal(int(until_semicolon()))
         if c == "[":
             out = []
             while s[pos] != "]":
